@@ -3,6 +3,7 @@ import copy
 import random
 from fractions import Fraction
 import numpy as np
+import pandas as pd
 from .. import gen, pf, impl
 from ..lean import fs
 
@@ -13,18 +14,53 @@ THEOREMS = [
     ('EAO.Properties.C18', 'EAO.C18.price_supergradient', 'for multipliers carrying minus the reported prices on the nodal rows: every point feasible after an injection d at a (node, step) has value <= V + price*d + gap, gap = exact Lagrangian gap of the reported optimum'),
 ]
 COMPONENTS = ['nodalPrices vs io.extract_output["prices"]', 'assemble nodal record', 'exact Lagrangian gap of the reported price table (driver op lagrangian)']
-RULE = ('random LP portfolios (no booleans); per scenario the exact gap of the reported price table and up to 6 re-optimisations with perturbed nodal right-hand side (both signs); '
+RULE = ('random LP portfolios (no booleans), plus a stream of portfolios with MIXED discount rates (some assets wacc = 0, some not, list order shuffled) on horizons of 10-40 steps of up to a day; '
+        'per scenario the exact gap of the reported price table, up to 6 re-optimisations with perturbed nodal right-hand side (both signs) on a copy of the assembled problem, '
+        'and 2-4 seed-drawn (node, step, d) for which the portfolio is RE-BUILT by the real code - the same asset objects plus a contract injecting the energy d in [t, t+1) at the node, '
+        'set up on the same Timegrid object with the same prices - and re-optimised (statement of the property itself); '
         'non-trivial = some reported nodal price differs across steps or nodes and at least one perturbed problem is feasible; distinct by scenario hash')
 ASSUMPTIONS = ['tolerance 2e-6 * max(1,|V|) on the exact gap and on the re-optimised values (solver accuracy)']
-EXPLANATION = 'price_supergradient reduces the property to gap = 0; the run evaluates the gap of the REPORTED table exactly (rationals) and cross-checks by re-optimisation'
+EXPLANATION = ('price_supergradient reduces the property to gap = 0 for the ASSEMBLED problem; the run evaluates the gap of the REPORTED table exactly (rationals), cross-checks by re-optimisation '
+               'of the perturbed assembled problem, and evaluates the statement itself on the real code: V(d) of the re-built portfolio with an injection asset against V(0) + price*d '
+               '(this also covers what the certificate cannot see: a re-build of the same objects that does not reproduce the original problem)')
+INJ_NAME = 'c18_injection'
+DISC_GRIDS = [('d', 'd', pd.Timedelta(days=1)), ('d', 'h', pd.Timedelta(days=1)), ('d', 'd', pd.Timedelta(days=1)), ('6h', 'd', pd.Timedelta(hours=6)),
+              ('4h', 'h', pd.Timedelta(hours=4)), ('h', 'h', pd.Timedelta(hours=1))]
+LP_KINDS = ['simple', 'contract', 'transport', 'ext_transport', 'storage', 'storage2', 'multi', 'orderbook', 'scaled', 'structured']
+
+
+def draw_injections(rnd, k):
+    """k seed-drawn injections: position u in [0,1) within the list of (step, node) pairs that carry a nodal row (known only after
+    the set-up) and a small energy amount d of either sign"""
+    return [[rnd.random(), rnd.choice([1, -1]) * rnd.choice([0.125, 0.25, 0.25, 0.5])] for _ in range(k)]
+
+
+def mixed_wacc(s, rnd):
+    """discount rates per top-level asset: some 0, some not (at least one of each where there are two assets that take a rate),
+    and the order of the asset list shuffled, so that a discounted asset may come before or after an undiscounted one"""
+    tgt = [a for a in s['assets'] if a['type'] != 'OrderBook']
+    ws = [rnd.choice([0.0, 0.0, 0.05, 0.1, 0.5, 1.0]) for _ in tgt]
+    if len(tgt) >= 2:
+        i, j = rnd.sample(range(len(tgt)), 2)
+        ws[i] = 0.0
+        if ws[j] == 0.0:
+            ws[j] = rnd.choice([0.05, 0.1, 0.5, 1.0])
+    for a, w in zip(tgt, ws):
+        for args in ([a['args'], a['base']['args']] if a['type'] == 'ScaledAsset' else [a['args']]):
+            if w:
+                args['wacc'] = w
+            else:
+                args.pop('wacc', None)
+    rnd.shuffle(s['assets'])
+    s['mixed_wacc'] = sorted(set(ws))
 
 
 def scenarios(seed, tier):
     n = 500 if tier == 'quick' else 3000
     rnd = random.Random(seed * 7919 + 18)
+    rinj = random.Random(seed * 7919 + 1818)      # own stream for the re-build injections: the portfolio stream stays as it was
     for i in range(n):
         # every fifth case on a zone-aware grid, half of them across a daylight-saving switch (a repeated or missing local hour)
-        import pandas as pd
         dstc = (i % 5 == 1)
         solver_i = [None, None, None, 'SCIPY', None, 'CLARABEL', None, 'SCS', None, None, 'SCS', None][i % 12]
         s = gen.gen_portfolio(random.Random(rnd.getrandbits(48)), tmax=(8 if not dstc else 11) if tier == 'quick' else 14, allow_mip=False,
@@ -46,7 +82,18 @@ def scenarios(seed, tier):
                         a['args'].pop('end', None)
         if solver_i is not None and not s.get('split'):
             s['solver'] = solver_i
+        s['inject'] = draw_injections(rinj, 2)
         yield 'gen%d' % i, s
+    # mixed discount rates in one portfolio on horizons long enough for discounting to matter (10-40 steps of up to a day);
+    # the re-built portfolio of the statement-level oracle shares Timegrid and asset objects with the original one
+    rw = random.Random(seed * 7919 + 180018)
+    for i in range(n // 3):
+        r = random.Random(rw.getrandbits(48))
+        s = gen.gen_portfolio(r, tmin=10, tmax=40 if tier == 'quick' else 90, allow_mip=False, tz_prob=0.1, grids=DISC_GRIDS, kinds=LP_KINDS,
+                              nodes_max=r.choice([1, 2, 3]), max_assets=4)
+        mixed_wacc(s, r)
+        s['inject'] = draw_injections(r, r.randint(3, 4))
+        yield 'wacc%d' % i, s
 
 
 def multipliers(op, res, prices_by_pair):
@@ -69,6 +116,44 @@ def multipliers(op, res, prices_by_pair):
         else:
             y.append(v)
     return y
+
+
+def rebuilt_value(rec, node, t, d, solver=None):
+    """optimal value of the portfolio of rec re-built by the real code with an extra injection of the ENERGY d at (node, step t):
+    a new Portfolio from the same asset objects plus a SimpleContract over [t, t+1) with min_cap = max_cap = d / dt[t]
+    (capacities are rates, the dispatch variable and the nodal balance are energy per step), set up on the same Timegrid object with
+    the same prices.  Returns the value, or a short string where there is no value to compare (infeasible, set-up refused, ...)"""
+    import eaopack as eao
+    tg, portf = rec['tg'], rec['portf']
+    start = tg.timepoints[t]
+    end = tg.timepoints[t + 1] if t + 1 < tg.T else tg.end      # grid points carry the zone of the grid: no ambiguous local time
+    cap = d / float(tg.dt[t])
+    try:
+        with impl.Quiet():
+            inj = eao.assets.SimpleContract(name=INJ_NAME, nodes=portf.nodes[node], start=start, end=end, min_cap=cap, max_cap=cap)
+            p2 = eao.portfolio.Portfolio(list(portf.assets) + [inj])
+            op2 = p2.setup_optim_problem(rec['prices'], tg)
+    except Exception as e:
+        return 'setup-error:' + impl.err_class(e)
+    # the injection arrived as specified: one more variable, fixed to d, in one more entry of the nodal row of (t, node)
+    n0 = len(rec['op'].c)
+    if len(op2.c) != n0 + 1 or abs(float(op2.l[-1]) - d) > 1e-9 or abs(float(op2.u[-1]) - d) > 1e-9 or float(op2.c[-1]) != 0.0 \
+            or list(op2.cType) != list(rec['op'].cType) or [(int(a), str(b)) for a, b in op2.map_nodal_restr] != [(int(a), str(b)) for a, b in rec['op'].map_nodal_restr]:
+        return 'injection-not-as-specified'
+    if pf.is_mip(op2):
+        return 'mip'
+    try:
+        res2 = impl.solve(op2, solver=solver)
+    except Exception as e:
+        if type(e).__name__ != 'SolverError':
+            raise
+        try:
+            res2 = impl.solve(op2, solver='SCIPY')
+        except Exception:
+            return 'solver-error'
+    if isinstance(res2, str):
+        return 'unsolved'
+    return float(res2.value)
 
 
 def run_case(scn, drv):
@@ -160,6 +245,31 @@ def run_case(scn, drv):
                                         'detail': 'injection %+g at node %s step %d: re-optimised value %.8g exceeds V + price*d = %.8g + %.6g*%g = %.8g' % (
                                             delta, n, t, res2.value, V, price, delta, V + price * delta),
                                         'facts': {'what': 'supergradient', 'sign': 'pos' if delta > 0 else 'neg'}})
+    # statement-level oracle on the real code: the portfolio re-built from the SAME asset objects plus an injection asset on the
+    # SAME Timegrid object, re-optimised: V(d) <= V(0) + price * d
+    mixed = len(scn.get('mixed_wacc', [])) >= 2 or len(set(float(getattr(a, 'wacc', 0) or 0) for a in rec['portf'].assets)) >= 2
+    if mixed:
+        feats.append('mixed-wacc')
+    for u, d in scn.get('inject', []):
+        if not len(op.map_nodal_restr):
+            break
+        t, n = op.map_nodal_restr[min(len(op.map_nodal_restr) - 1, int(u * len(op.map_nodal_restr)))]
+        t, n = int(t), str(n)
+        price = prices_by_pair[(t, n)]
+        got = rebuilt_value(rec, n, t, float(d), solver)
+        r['evaluated'] += 1
+        if isinstance(got, str):
+            feats.append('rebuild:' + got)
+            continue
+        feasible_pert += 1
+        feats.append('rebuild:solved')
+        if got > V + price * d + tol:
+            r['violations'].append({'oracle': 'nodal_price_rebuilt',
+                                    'detail': 'portfolio re-built from the same asset objects plus a contract injecting %+g at node %s in step %d, set up on the same Timegrid object with the same prices: '
+                                              're-optimised value %.10g exceeds V + price*d = %.10g + %.8g*%g = %.10g by %.4g (tolerance %.2g)' % (
+                                                  d, n, t, got, V, price, d, V + price * d, got - (V + price * d), tol),
+                                    'facts': {'what': 'supergradient_rebuilt', 'sign': 'pos' if d > 0 else 'neg', 'mixed_wacc': bool(mixed)}})
+            break
     # split optimisation: prices are reported at ORIGINAL steps; with nothing coupling the intervals the price table of the
     # split run must itself be a set of marginal values of the unsplit optimum (exact gap with the split table)
     if scn.get('split'):
